@@ -40,7 +40,8 @@ def samples(role, name, ty, custom):
     elif 'PathBuf' in inner: alt = ['/b']
     elif inner == 'bool': alt = ['no' if custom else 'false']
     elif inner in ('usize', 'u32'): alt = ['0', '4294967295' if inner == 'u32' else '1']
-    elif inner.startswith('Vec<') or inner.startswith('HashSet<'): alt = ['a', 'a b c']
+    elif inner.startswith('Vec<'): alt = ['a', 'a b a']   # (a list keeps repeated items)
+    elif inner.startswith('HashSet<'): alt = ['a', 'a b c']
     return [first] + alt
 def sample(role, name, ty, custom):
     t = ty.replace(' ', '')
